@@ -33,6 +33,7 @@ func rulesC10(c *Ctx) {
 	ruleLockDiscipline(c, lockSel{classes: serverLockClasses, pkgs: []string{"server", "rib"}, blocking: true, pairing: true, noGuarded: true})
 	ruleStopSignal(c)
 	ruleCloseBySender(c, []string{"Modify", "Get"}) // a session's end cannot panic the process: channels are closed by their sender only
+	ruleDeferOrder(c, []string{"server", "rib"})    // an abandoned RPC leaks no lock, slot or signal through the order of its deferred calls
 	ruleTeardownReach(c)
 	ruleSessionFootprint(c)
 	ruleElectionWriters(c)
@@ -423,44 +424,105 @@ func ruleElectionAtomic(c *Ctx) {
 		return
 	}
 	cur := c.P.Field("server", "Server", "curElecID")
-	// the comparison call and where its "existing id" argument comes from
-	var cmpArgLoadedHere, cmpFound bool
-	var cmpHeldW bool
-	allInstrs(fi.SSA, false, func(_ *ssa.Function, _ *ssa.BasicBlock, in ssa.Instruction) {
-		call, ok := in.(*ssa.Call)
-		if !ok {
-			return
+	// the procedure's body: runElection and the functions new to the rules that only it calls (a part of it
+	// extracted, e.g. the section under the lock); inside such a helper a lock held at every call site counts as held
+	cg := c.P.callGraph()
+	ext := []*ssa.Function{fi.SSA}
+	for _, f := range la.order {
+		if f == fi.SSA {
+			continue
 		}
-		cf := calleeFunc(call)
-		if cf == nil || cf.Name() != "isNewMaster" || len(call.Call.Args) != 2 {
-			return
+		if d := declaredOf(f); d != nil && f.Parent() == nil && isNewFunc(d) && onBehalfOf(cg, d, func(g *types.Func) bool { return g == fi.Obj }) {
+			ext = append(ext, f)
 		}
-		cmpFound = true
-		if isLoadOfField(call.Call.Args[1], cur) {
-			cmpArgLoadedHere = true
-			// lockset at the load
-			for _, a := range fl.accesses {
-				if a.pos == call.Call.Args[1].Pos() || (a.guard != nil && a.guard.Field == "curElecID" && !a.write) {
-					if m, ok := a.held[a.lock]; ok && m == modeW {
-						cmpHeldW = true
+	}
+	inExt := map[*ssa.Function]bool{}
+	for _, f := range ext {
+		inExt[f] = true
+	}
+	callerHeld := map[*ssa.Function]map[string]lockMode{}
+	for _, f := range ext {
+		for _, cs := range la.fns[f].calls {
+			if cs.callee == nil || !inExt[cs.callee] || cs.callee == fi.SSA {
+				continue
+			}
+			classes := map[string]lockMode{}
+			for lp, m := range cs.held {
+				for _, a := range la.fns[f].acqs {
+					if a.lock == lp {
+						classes[a.class] = m
 					}
 				}
 			}
-		}
-	})
-	nAcq := 0
-	for _, a := range fl.acqs {
-		if a.class == "Server.elecMu" {
-			nAcq++
+			if prev, seen := callerHeld[cs.callee]; seen {
+				for k, v := range prev {
+					if nv, ok := classes[k]; !ok || nv < v {
+						if !ok {
+							delete(prev, k)
+						} else {
+							prev[k] = nv
+						}
+					}
+				}
+			} else {
+				callerHeld[cs.callee] = classes
+			}
 		}
 	}
+	heldW := func(f *ssa.Function, a lockAccess) bool {
+		if m, ok := a.held[a.lock]; ok && m == modeW {
+			return true
+		}
+		if a.guard != nil {
+			if m, ok := callerHeld[f][classOfGuard(a.guard)]; ok && m == modeW {
+				return true
+			}
+		}
+		return false
+	}
+	// the comparison call and where its "existing id" argument comes from
+	var cmpArgLoadedHere, cmpFound bool
+	var cmpHeldW bool
+	nAcq, nStores := 0, 0
 	storesW := true
-	nStores := 0
-	for _, a := range fl.accesses {
-		if a.write && a.guard != nil && a.guard.Lock == "elecMu" {
-			nStores++
-			if m, ok := a.held[a.lock]; !ok || m != modeW {
-				storesW = false
+	for _, f := range ext {
+		ffl := la.fns[f]
+		if ffl == nil {
+			continue
+		}
+		allInstrs(f, false, func(_ *ssa.Function, _ *ssa.BasicBlock, in ssa.Instruction) {
+			call, ok := in.(*ssa.Call)
+			if !ok {
+				return
+			}
+			cf := calleeFunc(call)
+			if cf == nil || cf.Name() != "isNewMaster" || len(call.Call.Args) != 2 {
+				return
+			}
+			cmpFound = true
+			if isLoadOfField(call.Call.Args[1], cur) {
+				cmpArgLoadedHere = true
+				// lockset at the load
+				for _, a := range ffl.accesses {
+					if a.pos == call.Call.Args[1].Pos() || (a.guard != nil && a.guard.Field == "curElecID" && !a.write) {
+						if heldW(f, a) {
+							cmpHeldW = true
+						}
+					}
+				}
+			}
+		})
+		for _, a := range ffl.acqs {
+			if a.class == "Server.elecMu" {
+				nAcq++
+			}
+		}
+		for _, a := range ffl.accesses {
+			if a.write && a.guard != nil && a.guard.Lock == "elecMu" {
+				nStores++
+				if !heldW(f, a) {
+					storesW = false
+				}
 			}
 		}
 	}
@@ -695,4 +757,87 @@ func ruleCloseBySender(c *Ctx, handlers []string) {
 		}
 	}
 	c.floor(rule, "channels made by the RPC handlers", n, 6)
+}
+
+// DEFER-ORDER — deferred functions run last-in first-out. A deferred function that can block for ever (a bare channel
+// send or receive, a select without default, a Wait — e.g. the completion signal of a goroutine whose reader may be
+// gone) must not be declared after a deferred release (unlock, semaphore hand-back, close, Done): the release would
+// only run once the blocking one has returned, i.e. never — the lock, slot or signal is leaked by every abandoned RPC.
+func ruleDeferOrder(c *Ctx, rels []string) {
+	const rule = "DEFER-ORDER"
+	n := 0
+	for _, rel := range rels {
+		for _, fi := range c.P.AllFuncs(rel) {
+			if fi.Decl.Body == nil {
+				continue
+			}
+			info := fi.Pkg.TypesInfo
+			var defers []*ast.DeferStmt
+			for _, st := range fi.Decl.Body.List {
+				if ds, ok := st.(*ast.DeferStmt); ok {
+					defers = append(defers, ds)
+				}
+			}
+			if len(defers) < 2 {
+				continue
+			}
+			n++
+			c.Sites++
+			bad := ""
+			for j := 1; j < len(defers); j++ {
+				why := mayBlock(info, defers[j])
+				if why == "" {
+					continue
+				}
+				for i := 0; i < j; i++ {
+					if rel := releases(info, defers[i]); rel != "" {
+						bad = fmt.Sprintf("the deferred function at %s (%s) runs before the deferred %s declared at %s; when it blocks — nobody is left to take the signal — the %s never happens", c.P.pos(defers[j].Pos()), why, rel, c.P.pos(defers[i].Pos()), rel)
+					}
+				}
+			}
+			c.check(bad == "", rule, fi.Name, "no deferred release waits behind a deferred function that can block", c.P.pos(fi.Decl.Pos()), fmt.Sprintf("%d deferred calls", len(defers)), bad)
+		}
+	}
+	c.note("DEFER-ORDER: %d functions with two or more deferred calls examined", n)
+}
+
+// releases: what a deferred call hands back ("" = nothing recognised): unlock, WaitGroup.Done, close, or a channel
+// operation in a deferred closure (a semaphore slot).
+func releases(info *types.Info, ds *ast.DeferStmt) string {
+	name := func(call *ast.CallExpr) string {
+		if id, ok := ast.Unparen(call.Fun).(*ast.Ident); ok && id.Name == "close" {
+			return "close"
+		}
+		if se, ok := ast.Unparen(call.Fun).(*ast.SelectorExpr); ok {
+			switch se.Sel.Name {
+			case "Unlock", "RUnlock":
+				return "unlock"
+			case "Done":
+				return "Done"
+			}
+		}
+		return ""
+	}
+	if r := name(ds.Call); r != "" {
+		return r
+	}
+	fl, ok := ast.Unparen(ds.Call.Fun).(*ast.FuncLit)
+	if !ok {
+		return ""
+	}
+	out := ""
+	ast.Inspect(fl.Body, func(n ast.Node) bool {
+		switch x := n.(type) {
+		case *ast.CallExpr:
+			if r := name(x); r != "" {
+				out = r
+			}
+		case *ast.UnaryExpr:
+			if x.Op == token.ARROW {
+				out = "hand-back of a slot (receive from " + types.ExprString(x.X) + ")"
+			}
+		}
+		return true
+	})
+	return out
 }
